@@ -641,6 +641,13 @@ class Engine:
         if isinstance(n.op, ast.Or) and len(vals) == 2 and all(isinstance(v, IntV) for v in vals):
             a, b = vals  # `x or y` with ints: value-returning
             return IntV(z3.If(a.e != 0, a.e, b.e))
+        if len(vals) == 2 and not all(isinstance(v, BoolV) for v in vals):
+            # value-returning `a or b` / `a and b`
+            try:
+                c = self.truthy(vals[0])
+                return self.merge(c, vals[0], vals[1], n) if isinstance(n.op, ast.Or) else self.merge(c, vals[1], vals[0], n)
+            except (Unsupported, AttributeError, TypeError):
+                pass  # operands of different shapes: only the truth value is meaningful (boolean context)
         ts = [self.truthy(v) for v in vals]
         return BoolV(z3.And(*ts) if isinstance(n.op, ast.And) else z3.Or(*ts))
 
@@ -712,15 +719,15 @@ class Engine:
 
     def ev_Call(self, n, st):
         f = self.ev(n.func, st)
-        if n.keywords and not isinstance(f, BoundMethod):
-            raise Unsupported(f"keyword args@{n.lineno}")
+        if any(k.arg is None for k in n.keywords) or any(isinstance(a, ast.Starred) for a in n.args):
+            raise Unsupported(f"*args/**kwargs call@{n.lineno}")
         args = [self.ev(a, st) for a in n.args]
         kwargs = {k.arg: self.ev(k.value, st) for k in n.keywords}
         if isinstance(f, FuncRef):
-            r = self.call_builtin(f.name, args, st, n)
+            r = self.call_builtin(f.name, args, st, n) if not kwargs else None
             if r is not None:
                 return r
-            return self.model.call_global(self, st, f.name, args, n)
+            return self.model.call_global(self, st, f.name, args, n, **kwargs)
         if isinstance(f, BoundMethod):
             recv = f.recv
             if isinstance(recv, ObjV):
@@ -910,9 +917,12 @@ class Engine:
         return [(st, None)]
 
     def st_AugAssign(self, s, st):
-        load = ast.copy_location(ast.Name(id=s.target.id, ctx=ast.Load()), s) if isinstance(s.target, ast.Name) else None
-        if load is None:
-            raise Unsupported("augassign on non-name")
+        if isinstance(s.target, ast.Name):
+            load = ast.copy_location(ast.Name(id=s.target.id, ctx=ast.Load()), s)
+        elif isinstance(s.target, ast.Attribute):
+            load = ast.copy_location(ast.Attribute(value=s.target.value, attr=s.target.attr, ctx=ast.Load()), s)
+        else:
+            raise Unsupported("augassign target")
         bo = ast.copy_location(ast.BinOp(left=load, op=s.op, right=s.value), s)
         self._ord[id(bo)] = 1000 + self.ordinal(s)
         v = self.ev(bo, st)
@@ -968,9 +978,15 @@ class Engine:
             elif isinstance(n, ast.Call) and isinstance(n.func, ast.Attribute) and n.func.attr == "append" and isinstance(n.func.value, ast.Name):
                 names.add(n.func.value.id)
             for t in tgts:
-                for e in ast.walk(t):
+                stack = [t]
+                while stack:  # only names that are themselves (re)bound: `a`, `(a, b)`; not the objects in `obj.attr = ...` / `x[i] = ...`
+                    e = stack.pop()
                     if isinstance(e, ast.Name):
                         names.add(e.id)
+                    elif isinstance(e, (ast.Tuple, ast.List)):
+                        stack.extend(e.elts)
+                    elif isinstance(e, ast.Starred):
+                        stack.append(e.value)
         return sorted(names)
 
     def _snapshot_entry(self, st: State, s):
@@ -1001,12 +1017,30 @@ class Engine:
                 st.env.pop(m, None)  # loop-local: assigned before use in every iteration
             else:
                 raise Unsupported(f"havoc {m}:{type(old).__name__}")
+        # attributes of `self` assigned in the loop body
+        for n in ast.walk(s):
+            tg = n.targets if isinstance(n, ast.Assign) else ([n.target] if isinstance(n, ast.AugAssign) else [])
+            for t in tg:
+                if isinstance(t, ast.Attribute) and isinstance(t.value, ast.Name) and t.value.id == "self":
+                    key = f"self.{t.attr}"
+                    cur = st.attrs.get(key)
+                    if cur is None:
+                        try:
+                            cur = self.model.attr(self, st, "self", t.attr, n)
+                        except Unsupported:
+                            cur = None
+                    if isinstance(cur, IntV) or cur is None:
+                        st.attrs[key] = IntV(fresh(key))
+                    else:
+                        raise Unsupported(f"havoc of attribute {key}:{type(cur).__name__}")
         st.ghost["io"] = fresh("io")
         st.ghost["io_calls"] = fresh("io_calls")
         for g, shape in spec.ghost_havoc.items():
             if shape == "bytes":
                 st.ghost[g] = fresh_bytes(g)
                 st.hyps.append(st.ghost[g].n >= 0)
+            elif shape == "array":
+                st.ghost[g] = fresh(g, z3.ArraySort(I, I))
             else:
                 st.ghost[g] = fresh(g)
         for name in list(st.filepos):
@@ -1077,6 +1111,8 @@ class Engine:
             src2 = self.model.iter_(self, st, src.path, s)
             if isinstance(src2, SeqV):
                 return self._for_seq(s, st, src2)
+            if isinstance(src2, tuple) and src2[0] == "indexed":  # ("indexed", length, element_of(state, index))
+                return self._for_index(s, st, z3.IntVal(0), src2[1], src2[2])
         raise Unsupported(f"for over {type(src).__name__}@{s.lineno}")
 
     def _for_index(self, s, st, lo, hi, elem_of):
